@@ -671,120 +671,134 @@ func (r *Roles) commitArg(c ssa.CallInstruction) (ssa.Value, bool) {
 	return nil, false
 }
 
-func checkSequencerProgress(p *Prog, r *Roles, res *Result) {
-	seq := r.Sequencer
-	// the consumed event: result of TypeAssert on atomic.Value.Load
-	var ev ssa.Value
-	var loadCall ssa.CallInstruction
-	for _, c := range callsIn(seq) {
-		sc := c.Common().StaticCallee()
-		if sc != nil && sc.Name() == "Load" && sc.Signature.Recv() != nil && isNamed(sc.Signature.Recv().Type(), "sync/atomic", "Value") {
-			loadCall = c
-		}
+// seqEvent describes the slot load of the sequencer region: the load call, its chain from the goroutine's function
+// and the consumed event value (and, for the comma-ok form, the ok value).
+type seqEvent struct {
+	rg    *fnRegion
+	load  ssa.CallInstruction
+	frame *frame
+	ev    ssa.Value
+	okV   ssa.Value
+}
+
+func isAtomicValueCall(c ssa.CallInstruction, name string) bool {
+	sc := c.Common().StaticCallee()
+	return sc != nil && sc.Name() == name && sc.Signature.Recv() != nil && isNamed(sc.Signature.Recv().Type(), "sync/atomic", "Value")
+}
+
+func sequencerEvent(p *Prog, r *Roles) (*seqEvent, string) {
+	rg := r.SeqRegion
+	chs := rg.chainsIn(p, func(ins ssa.Instruction) bool {
+		c, ok := ins.(ssa.CallInstruction)
+		return ok && isAtomicValueCall(c, "Load")
+	})
+	if len(chs) != 1 {
+		return nil, fmt.Sprintf("expected one slot load in the sequencer, found %d", len(chs))
 	}
-	if loadCall == nil {
-		res.und("C04-R3", funcName(seq), "-", "slot load not found")
-		return
-	}
-	for _, ref := range *loadCall.Value().Referrers() {
+	se := &seqEvent{rg: rg, load: chs[0].target.(ssa.CallInstruction), frame: frameOfChain(chs[0])}
+	for _, ref := range *se.load.Value().Referrers() {
 		if ta, ok := ref.(*ssa.TypeAssert); ok {
 			if ta.CommaOk {
 				for _, rr := range *ta.Referrers() {
-					if ex, ok := rr.(*ssa.Extract); ok && ex.Index == 0 {
-						ev = ex
+					if ex, ok := rr.(*ssa.Extract); ok {
+						if ex.Index == 0 {
+							se.ev = ex
+						} else {
+							se.okV = ex
+						}
 					}
 				}
 			} else {
-				ev = ta
+				se.ev = ta
 			}
 		}
 	}
-	if ev == nil {
-		res.und("C04-R3", funcName(seq), p.pos(loadCall.Pos()), "event value of the slot load not found")
+	if se.ev == nil {
+		return nil, "event value of the slot load not found"
+	}
+	return se, ""
+}
+
+// isEv: v (a value of frame fr) is the consumed event.
+func (se *seqEvent) isEv(v ssa.Value, fr *frame) bool { return se.rg.origin(v, fr) == se.ev }
+
+// fieldOfEv: v is a load of field fld of the consumed event.
+func (se *seqEvent) fieldOfEv(v ssa.Value, fld *types.Var, fr *frame) bool {
+	u, ok := resolve(v).(*ssa.UnOp)
+	if !ok || u.Op != token.MUL {
+		return false
+	}
+	fa, ok := u.X.(*ssa.FieldAddr)
+	return ok && fieldOf(fa) == fld && se.isEv(fa.X, fr)
+}
+
+// absentEdge: on this edge no event was consumed (the load found nil / a foreign value): nothing to commit.
+func (se *seqEvent) absentEdge(from *ssa.BasicBlock, succ int, fr *frame) bool {
+	if ifOf(from) == nil {
+		return false
+	}
+	cf := edgeFact(edge{from, succ})
+	if cf.X != nil {
+		x, y := cf.X, cf.Y
+		if isNilConst(x) {
+			x, y = y, x
+		}
+		if isNilConst(y) && se.isEv(x, fr) {
+			return (cf.Op == token.EQL && cf.Want) || (cf.Op == token.NEQ && !cf.Want)
+		}
+		return false
+	}
+	if se.okV != nil && cf.Call == nil && se.rg.origin(cf.Raw, fr) == se.okV {
+		return !cf.Want
+	}
+	return false
+}
+
+func checkSequencerProgress(p *Prog, r *Roles, res *Result) {
+	seq := r.Sequencer
+	se, why := sequencerEvent(p, r)
+	if se == nil {
+		res.und("C04-R3", funcName(seq), p.pos(seq.Pos()), why)
 		return
 	}
 	revField := p.structField("pkg/backend/common", "WatchEvent", "Revision")
-	isEvRevision := func(v ssa.Value) bool {
-		v = resolve(v)
-		u, ok := v.(*ssa.UnOp)
-		if !ok || u.Op != token.MUL {
-			return false
-		}
-		fa, ok := u.X.(*ssa.FieldAddr)
-		return ok && fieldOf(fa) == revField && resolve(fa.X) == ev
-	}
-	// start points: the edges on which the event is known to be non-nil (first use of ev's fields dominates)
-	// We start from every block that dereferences ev (FieldAddr on ev) and is not dominated by another such block.
-	var derefBlocks []*ssa.BasicBlock
-	for _, ref := range *ev.Referrers() {
-		if fa, ok := ref.(*ssa.FieldAddr); ok {
-			derefBlocks = append(derefBlocks, fa.Block())
-		}
-	}
-	var starts []*ssa.BasicBlock
-	for _, b := range derefBlocks {
-		top := true
-		for _, o := range derefBlocks {
-			if o != b && o.Dominates(b) {
-				top = false
-			}
-		}
-		dup := false
-		for _, s := range starts {
-			if s == b {
-				dup = true
-			}
-		}
-		if top && !dup {
-			starts = append(starts, b)
-		}
-	}
-	if len(starts) == 0 {
-		res.und("C04-R3", funcName(seq), p.pos(loadCall.Pos()), "no use of the consumed event found")
-		return
-	}
-	isNextLoad := func(ins ssa.Instruction) bool { return ins == loadCall.(ssa.Instruction) }
-	isCommit := func(ins ssa.Instruction) bool {
+	isCommit := func(ins ssa.Instruction, fr *frame) bool {
 		c, ok := ins.(ssa.CallInstruction)
 		if !ok {
 			return false
 		}
 		arg, ok := r.commitArg(c)
-		return ok && isEvRevision(arg)
+		return ok && se.fieldOfEv(arg, revField, fr)
 	}
-	isClear := func(ins ssa.Instruction) bool {
+	isClear := func(ins ssa.Instruction, fr *frame) bool {
 		c, ok := ins.(ssa.CallInstruction)
-		if !ok {
-			return false
-		}
-		sc := c.Common().StaticCallee()
-		if sc == nil || sc.Name() != "Store" || sc.Signature.Recv() == nil || !isNamed(sc.Signature.Recv().Type(), "sync/atomic", "Value") {
+		if !ok || !isAtomicValueCall(c, "Store") {
 			return false
 		}
 		mi, ok := c.Common().Args[1].(*ssa.MakeInterface)
 		return ok && isNilConst(mi.X)
 	}
-	for _, st := range starts {
-		for _, chk := range []struct {
-			name string
-			stop func(ssa.Instruction) bool
-		}{{"TSO.Commit(event.Revision)", isCommit}, {"slot clear", isClear}} {
-			ins, path := searchFrom(st, 0, searchOpts{
-				stop: chk.stop,
-				bad: func(ins ssa.Instruction) bool {
-					if isNextLoad(ins) {
-						return true
-					}
-					_, isRet := ins.(*ssa.Return)
-					return isRet
-				},
-			})
-			construct := fmt.Sprintf("%s: %s after a consumed slot", funcName(seq), chk.name)
-			if ins != nil {
-				res.bad("C04-R3", construct, p.pos(ins.Pos()), "a path from the consumed event reaches the next slot load (or returns) without "+chk.name+": "+blockPath(p, path))
-			} else {
-				res.ok("C04-R3", construct, p.pos(loadCall.Pos()), "every path from the consumed event to the next slot load passes through it")
-			}
+	lp := posOf(se.load.(ssa.Instruction))
+	for _, chk := range []struct {
+		name string
+		stop func(ssa.Instruction, *frame) bool
+	}{{"TSO.Commit(event.Revision)", isCommit}, {"slot clear", isClear}} {
+		ins, fr, path := se.rg.search(se.frame, lp.b, lp.i+1, superOpts{
+			stop: chk.stop,
+			bad: func(ins ssa.Instruction, fr *frame) bool {
+				if ins == se.load.(ssa.Instruction) {
+					return true
+				}
+				_, isRet := ins.(*ssa.Return)
+				return isRet && fr.parent == nil
+			},
+			skipEdge: se.absentEdge,
+		})
+		construct := fmt.Sprintf("%s: %s after a consumed slot", funcName(seq), chk.name)
+		if ins != nil {
+			res.bad("C04-R3", construct, p.pos(ins.Pos()), "a path from the consumed event reaches the next slot load (or returns) without "+chk.name+" (in "+fr.String()+path+")")
+		} else {
+			res.ok("C04-R3", construct, p.pos(se.load.Pos()), "every path from the consumed event to the next slot load passes through it")
 		}
 	}
 	// exactly one go statement starts the sequencer
@@ -813,7 +827,7 @@ func checkWhoMayAdvance(p *Prog, r *Roles, res *Result, rule string) {
 	shimSet := p.ifaceMethod("pkg/server/etcd", "BackendShim", "SetCurrentRevision")
 	revBackendSet := p.ifaceMethod("pkg/server/service/revision", "Backend", "SetCurrentRevision")
 	allowed := func(f *ssa.Function) (string, bool) {
-		if f == r.Sequencer {
+		if f == r.Sequencer || (r.SeqRegion.descend(f) && p.onlyWithin(f, r.Sequencer, 0)) {
 			return "sequencer", true
 		}
 		for _, impl := range p.implsOf(r.BSetCur) {
